@@ -138,6 +138,11 @@ func (p *parser) readByte() (b byte, err error) {
 		if 0 < n {
 			// This occurs with HTTP POST requests. EOF with a character read.
 			b = ba[0]
+			if b == '\n' {
+				// Counted like any other newline.
+				p.line++
+				p.col = 0
+			}
 			p.col++
 		}
 	}
